@@ -508,6 +508,9 @@ func c15Goroutines(c *Ctx) {
 		})
 	}
 	c.Floor("C15.Q4-goroutine-terminates", 4)
+	// the watcher's exit depends on the receiver's Close waking Next: see receiverCloseSignals
+	receiverCloseSignals(c, "C15.Q4-receiver-close-wakes-next")
+	c.Floor("C15.Q4-receiver-close-wakes-next", 1)
 }
 
 func c15CloseOnce(c *Ctx, key string, cs CallSite) {
